@@ -329,7 +329,7 @@ def run_ttable(ctx, nentries):
         mine = idx[s::nsh]
         if not mine:
             continue
-        path = os.path.join(core.CASES, "%s_ttab_%d.v" % (ctx.pid, s))
+        path = os.path.join(core.CASES, "%s_p%d_ttab_%d.v" % (ctx.pid, os.getpid(), s))
         with open(path, "w") as f:
             f.write(THEADER)
             f.write("Goal length tstat_table = %d%%nat. Proof. reflexivity. Qed.\n" % nentries)
@@ -352,7 +352,7 @@ def run_ttable(ctx, nentries):
                 bad[-1] = out[-600:]
             singles = []
             for i in rest:
-                p1 = os.path.join(core.CASES, "%s_ttab1_%d.v" % (ctx.pid, i))
+                p1 = os.path.join(core.CASES, "%s_p%d_ttab1_%d.v" % (ctx.pid, os.getpid(), i))
                 with open(p1, "w") as f:
                     f.write(THEADER + "Lemma ttab_%d : tstat_entry_ok (nth %d tstat_table dflt).\nProof. t_entry %d%%nat. Qed.\n" % (i, i, i))
                 singles.append((i, p1))
@@ -395,7 +395,7 @@ def run_log_tie(ctx, goals_meta):
     nsh = min(core.NPROC, max(1, len(goals_meta) // 3))
     files = []
     for s in range(nsh):
-        path = os.path.join(core.CASES, "%s_logtie_%d.v" % (ctx.pid, s))
+        path = os.path.join(core.CASES, "%s_p%d_logtie_%d.v" % (ctx.pid, os.getpid(), s))
         with open(path, "w") as f:
             f.write(LHEADER)
             for k in range(s, len(goals_meta), nsh):
